@@ -9,6 +9,9 @@
 #include "c20_map.hpp"
 #include "c20_string.hpp"
 #include "c20_misc.hpp"
+#include <sys/wait.h>
+#include <sys/mman.h>
+#include <cerrno>
 
 using namespace sim;
 using namespace c20;
@@ -117,15 +120,21 @@ struct Gen {
 const char* const ELEMS[] = { "int", "string", "counting" };
 
 // ------------------------------------------------------------------------------------------------ execution
+struct ProgressOut { char cont[24]; char kind[64]; char phase[16]; int opIdx; };
+ProgressOut* g_progress = 0;
+inline void note(const Run& R) { if (!g_progress) return; copyz(g_progress->cont, sizeof g_progress->cont, R.cont.c_str()); copyz(g_progress->kind, sizeof g_progress->kind, R.kind.c_str()); copyz(g_progress->phase, sizeof g_progress->phase, R.phase.c_str()); g_progress->opIdx = (int)R.opIdx; }
+
 template <class Runner> void runHistory(Run& R) {
     Runner* r = new Runner(R);                       // abandoned (never destroyed) when the history is aborted
     const Json& ops = R.plan.at("ops");
     for (size_t i = 0; i < ops.a.size() && !R.stop; ++i) {
         if (ops.a[i].t != Json::Obj) continue;
         R.opIdx = i; R.op = &ops.a[i]; R.phase = "op"; R.extraLive = 0; R.kind = ops.a[i].str("op"); R.stateClass = "";
+        note(R);
         r->step();
     }
     R.op = 0; R.opIdx = ops.a.size(); R.kind = "destroy"; R.stateClass = ""; R.phase = "destroy"; R.fired = false;
+    note(R);
     r->finish(); delete r;
     R.phase = "final";
 }
@@ -143,7 +152,11 @@ bool listed(const char* list, const std::string& m) {
 
 struct C20 : public Driver {
     const char* property() const override { return "C20"; }
-    void init() override { xalanInitOnce(); installHandlers(); }
+    void init() override {
+        xalanInitOnce(); installHandlers();
+        progress = (Progress*)mmap(nullptr, 4096, PROT_READ | PROT_WRITE, MAP_SHARED | MAP_ANONYMOUS, -1, 0);
+        g_progress = progress;
+    }
 
     Json makePlan(uint64_t verifSeed, uint64_t run, const std::string& tier) override {
         const uint64_t seed = runSeed(verifSeed, "C20", run);
@@ -224,7 +237,88 @@ struct C20 : public Driver {
         }
     }
 
+
+    // ---- every history runs in a forked child of the pre-initialised worker: an AddressSanitizer report or a
+    // std::terminate ends only that history, and the parent turns it into an ordinary violation record.
+    static std::string slurp(int fd) { std::string s; lseek(fd, 0, SEEK_SET); char b[8192]; ssize_t n; while ((n = read(fd, b, sizeof b)) > 0) s.append(b, n); close(fd); return s; }
+    static std::string asanSig(const std::string& err, std::string* kindOut) {
+        std::string kind = "unknown"; size_t p = err.find("ERROR: AddressSanitizer: ");
+        if (p != std::string::npos) { size_t e = err.find_first_of(" \n", p + 25); kind = err.substr(p + 25, e - (p + 25)); }
+        if (kindOut) *kindOut = kind;
+        std::vector<std::string> frames; bool started = false; size_t q = p == std::string::npos ? 0 : p;
+        while (q < err.size() && frames.size() < 3) {
+            size_t e = err.find('\n', q); if (e == std::string::npos) e = err.size();
+            const std::string ln = err.substr(q, e - q); q = e + 1;
+            size_t h = ln.find_first_not_of(' ');
+            if (h != std::string::npos && ln[h] == '#' && ln.find(" in ") != std::string::npos) {
+                started = true;
+                size_t in = ln.find(" in ") + 4, sp = ln.rfind(' ');
+                if (sp == std::string::npos || sp <= in) continue;
+                const std::string fn = ln.substr(in, sp - in), file = ln.substr(sp + 1);
+                if (file.find("/src/xalanc/") == std::string::npos) continue;
+                const std::string f = normSym(fn);
+                if (frames.empty() || frames.back() != f) frames.push_back(f);
+            } else if (started && ln.find_first_not_of(" \t") == std::string::npos) break;
+        }
+        std::string sig = kind + ":"; if (frames.empty()) sig += "no-xalan-frame"; for (size_t i = 0; i < frames.size(); ++i) sig += (i ? "<" : "") + frames[i];
+        return sig;
+    }
+    typedef ProgressOut Progress;
+    Progress* progress = 0;
+
     void execute(const Json& plan, Result& res, Trace& tr) override {
+        if (getenv("C20_NOFORK")) { executeHere(plan, res, tr); return; }
+        const int rfd = memfd_create("c20res", 0), efd = memfd_create("c20err", 0);
+        memset(progress, 0, sizeof *progress);
+        fflush(stdout); fflush(stderr);
+        const pid_t pid = fork();
+        if (pid < 0) { res.harness("fork failed"); close(rfd); close(efd); return; }
+        if (pid == 0) {
+            dup2(efd, 2);
+            std::set_terminate([] { _exit(78); });
+            Result r2; r2.run = res.run; r2.seed = res.seed; Trace t2; t2.keep = tr.keep;
+            ubsanReset();
+            try { executeHere(plan, r2, t2); }
+            catch (const std::exception& e) { r2.harness(std::string("exception escaped the interpreter: ") + e.what()); }
+            catch (...) { r2.harness("unknown exception escaped the interpreter"); }
+            for (auto& u : ubsanTake()) r2.violate("sanitizer:ubsan", u, "UndefinedBehaviorSanitizer report: " + u + " (" + progress->cont + ")");
+            Json j = Json::object();
+            j["status"] = r2.status; j["hdetail"] = r2.harnessDetail; j["hash"] = t2.hex(); j["events"] = (long long)t2.events;
+            Json vl = Json::array(); for (auto& v : r2.viols) { Json o = Json::object(); o["c"] = v.cls; o["s"] = v.sig; o["d"] = v.detail; o["n"] = v.count; vl.push(o); }
+            j["viols"] = vl; j["counters"] = r2.counters; j["tags"] = r2.tags;
+            if (t2.keep) { Json l = Json::array(); for (auto& e : t2.log) l.push(e); j["log"] = l; }
+            const std::string out = j.dump(); size_t off = 0;
+            while (off < out.size()) { ssize_t w = write(rfd, out.data() + off, out.size() - off); if (w <= 0) break; off += (size_t)w; }
+            _exit(0);
+        }
+        int st = 0; while (waitpid(pid, &st, 0) < 0 && errno == EINTR) {}
+        const std::string raw = slurp(rfd), err = slurp(efd);
+        const std::string at = std::string(progress->cont) + " op#" + std::to_string(progress->opIdx) + " " + progress->kind + " (" + progress->phase + ")";
+        if (WIFEXITED(st) && WEXITSTATUS(st) == 0 && !raw.empty()) {
+            Json j; try { j = Json::parse(raw); } catch (...) { res.harness("unparsable result from the child"); return; }
+            res.status = j.str("status", "ok"); res.harnessDetail = j.str("hdetail");
+            for (auto& v : j.at("viols").a) { Viol x; x.cls = v.str("c"); x.sig = v.str("s"); x.detail = v.str("d"); x.count = (int)v.num("n", 1); res.viols.push_back(x); }
+            res.counters = j.at("counters"); if (res.counters.t != Json::Obj) res.counters = Json::object();
+            res.tags = j.at("tags"); if (res.tags.t != Json::Arr) res.tags = Json::array();
+            tr.h = strtoull(j.str("hash", "0").c_str(), nullptr, 16); tr.events = (size_t)j.num("events");
+            if (tr.keep) for (auto& e : j.at("log").a) tr.log.push_back(e.s);
+            return;
+        }
+        // the child died: one violation record, deterministic trace
+        res.count("histories:" + std::string(progress->cont)); res.count("crashed-histories");
+        std::string cls, sig, detail;
+        if (WIFEXITED(st) && (WEXITSTATUS(st) == 77 || err.find("ERROR: AddressSanitizer") != std::string::npos)) {
+            std::string kind; cls = "sanitizer:asan"; sig = asanSig(err, &kind);
+            detail = "AddressSanitizer " + kind + " during " + at + "\n" + err.substr(0, 3500);
+        } else if (WIFEXITED(st) && WEXITSTATUS(st) == 78) { cls = "abnormal-termination"; sig = std::string("terminate:") + progress->cont + ":" + progress->kind; detail = "std::terminate during " + at; }
+        else if (WIFEXITED(st) && WEXITSTATUS(st) == 70) { res.harness("assertion outside a run in the child: " + err.substr(0, 400)); tr.ev("child-harness"); return; }
+        else if (WIFSIGNALED(st)) { cls = "abnormal-termination"; sig = "signal" + std::to_string(WTERMSIG(st)) + ":" + progress->cont + ":" + progress->kind; detail = "child killed by signal " + std::to_string(WTERMSIG(st)) + " during " + at; }
+        else { cls = "abnormal-termination"; sig = "exit" + std::to_string(WIFEXITED(st) ? WEXITSTATUS(st) : -1) + ":" + progress->cont + ":" + progress->kind; detail = "child exited without a result during " + at + "; stderr: " + err.substr(0, 600); }
+        res.violate(cls, sig, detail);
+        tr.ev("child-died " + cls + " " + sig);
+    }
+
+    void executeHere(const Json& plan, Result& res, Trace& tr) {
         Counted::resetStats(); hashMode() = 0;
         AbortCtx& A = abortCtx();
         Run* R = new Run(res, tr, plan);
